@@ -104,6 +104,15 @@ impl DestLedger {
         }
     }
 
+    /// Does this datagram start with an Initial whose cleartext token field holds a token that `node` put into a Retry
+    /// packet addressed to `from`? (per datagram: the cause of validation of the connection this very Initial creates)
+    pub fn initial_carries_retry_token(&self, node: usize, from: SocketAddr, data: &[u8]) -> bool {
+        match long_packet(data) {
+            Some((0, v, token, _)) => v != 0 && !token.is_empty() && self.retry_tokens.get(&(node, from)).is_some_and(|ts| ts.contains(&token)),
+            _ => false,
+        }
+    }
+
     /// the datagram was routed to connection `ch` (its event was queued)
     pub fn routed(&mut self, node: usize, ch: usize, data: &[u8]) {
         self.marks.entry((node, ch)).or_default().push_back(has_handshake_packet(data));
